@@ -464,6 +464,13 @@ def raw0 : Nat → String := fun i => if i = 0 then "evil.test:80" else "198.51.
 example : (runSched env0 pol0 inp0 rsTwo (World.init raw0 0) [1, 0, 0, 1, 0, 1, 1]).dialString = none := by
   simp [runSched, step, World.init, World.dialString, updateAt, parseOrResolve, inp0, ans0, rsTwo, env0,
     pol0, isBlocklistedCovertDomain]
+/-- **Why the duplicate check after `TrackRegistration` is needed**: in the code before the repair the same
+interleaving made the rejected worker's object dialable — with its raw, unchecked covert string (a name
+that is resolved at dial time). -/
+theorem unrepaired_dials_unchecked_covert :
+    (runSchedUnrepaired env0 pol0 inp0 rsTwo (World.init raw0 0) [1, 0, 0, 1, 0, 1, 1]).dialString = some "evil.test:80" := by
+  simp [runSchedUnrepaired, stepUnrepaired, step, World.init, World.dialString, updateAt, registerStep, parseOrResolve, inp0,
+    ans0, rsTwo, env0, pol0, isBlocklistedCovertDomain, isBlocklistedCovertAddr, addrText, joinHostPort_ne_empty, raw0]
 -- the same race won by the worker with the permitted literal: its own checked literal is what is dialable
 example : (runSched env0 pol0 inp0 rs0 (World.init raw0 0) [1, 0, 1, 0, 0, 1, 1]).dialString
     = some (joinHostPort "198.51.100.7" "443") := by
